@@ -22,7 +22,11 @@ from ._common import ConfigParserMissingSectionException, ConfigParserDuplicateE
 from ._multi_range_parser import multi_range_parser
 
 def _get_or_none(k, d, t):
-  v = d.get(k, None)
+  # Only consider options set in the section itself: .get() would also return an option of
+  # the same name from the default section ([Variables]).
+  v = None
+  if k in d:
+    v = d[k]
   if not v is None:
     try:
       v = t(v)
@@ -273,7 +277,9 @@ class _TableFormSection(object):
     name = self._parse_name(section_name)
     section = self._cfg_parser[section_name]
 
-    interpolation = section.get(u"interpolation", u"cubic_spline")
+    interpolation = u"cubic_spline"
+    if u"interpolation" in section:
+      interpolation = section[u"interpolation"]
     x,y = self._parse_data(section_name, section)
 
     table_tuple = TableFormTuple(
@@ -323,6 +329,24 @@ class _RawConfigParser(configparser.RawConfigParser):
     # whilst reading, has_option() and therefore overrides, additions and removals.
     option = "".join(option.split())
     return option
+
+  def options(self, section):
+    """Return the options set in `section` itself. The entries of the default section ([Variables])
+    remain available to ${...} interpolation but are not members of every other section."""
+    if section == self.default_section:
+      return list(self._defaults.keys())
+    try:
+      return list(self._sections[section].keys())
+    except KeyError:
+      raise configparser.NoSectionError(section)
+
+  def has_option(self, section, option):
+    """As RawConfigParser.has_option() but, for named sections, without falling back to the default section."""
+    if not section or section == self.default_section:
+      return super(_RawConfigParser, self).has_option(section, option)
+    if section not in self._sections:
+      return False
+    return self.optionxform(option) in self._sections[section]
 
 class ConfigParser(object):
   """Performs initial stage (tokenizing) of generating a potential model
